@@ -207,6 +207,40 @@ Example eof_after_drain_nonvacuous :
     /\ avail_data (fbuf p') = 5 /\ fst_ p' = CWriteOpen /\ rw (bi p') = true.
 Proof. eexists. eexists. vm_compute. repeat split; reflexivity. Qed.
 
+(** the client's half-close (after fix d485621): the session stays while the
+    backend has not ended its own stream, and once the client's bytes are out its
+    end-of-stream is passed on (shutdown(Write) on the backend socket) *)
+Theorem client_halfclose_keeps_session :
+  forall p, fst_ p = CWriteOpen -> bst p = CNormal -> check_connections p = true.
+Proof. intros p F B. unfold check_connections. rewrite F, B. reflexivity. Qed.
+
+Theorem client_fin_passed_on :
+  forall p, fst_ p = CWriteOpen -> avail_data (fbuf p) = 0 -> has_back p = true ->
+    bfin (p_propagate p) = true /\ fbuf (p_propagate p) = fbuf p /\ bbuf (p_propagate p) = bbuf p.
+Proof.
+  intros p F A H. split; [|split; [apply propagate_fbuf|apply propagate_bbuf]].
+  unfold p_propagate. rewrite F, A, H. reflexivity.
+Qed.
+
+(** halfclose_cuts_reverse (open finding, backend side) REFUTED: a HUP from a
+    backend that has only shut down its write side closes the session although
+    client bytes are still buffered toward it *)
+Theorem backend_halfclose_cuts_client_refuted :
+  exists p p', pipe_backend_hup p = (p', Close) /\ bst p = CNormal /\ fst_ p = CNormal /\
+               avail_data (fbuf p') = 3 /\ has_back p = true.
+Proof.
+  exists (p_fbuf (pipe_new 16 true) (mkbuf 16 0 [1;2;3]%N)). eexists. vm_compute. repeat split; reflexivity.
+Qed.
+
+(** `printf request | nc` in the model: request and FIN arrive together; one readiness pass
+    forwards the request, passes the FIN on, and keeps the session *)
+Example client_halfclose_nonvacuous :
+  let e := mkenv (SPipe (p_be (p_fe (pipe_new 32 true) (mkrd true false false true)) (mkrd false true false false)))
+                 (mksock [71;69;84]%N true false None false []) sock0 32 false [] in
+  exists e', ready_inner e = (e', Some Continue) /\ outq (bsock e') = [71;69;84]%N /\
+             match se e' with SPipe p => bfin p = true /\ fst_ p = CWriteOpen | _ => False end.
+Proof. eexists. vm_compute. repeat split; reflexivity. Qed.
+
 (* ---------------- non-vacuity ---------------- *)
 
 Example v2_roundtrip_nonvacuous :
